@@ -81,7 +81,7 @@ CentreTab == << << <<1, 4>>, <<-1, 2>>, <<3, 4>> >>,
 WidthTab  == << << <<1, 8>>, <<1, 4>>, <<1, 2>> >>,
                 << <<1, 2>>, <<1, 8>>, <<3, 8>> >>,
                 << <<1, 128>>, <<1, 64>>, <<1, 256>> >> >>
-ScaleTab  == << <<1, 1>>, <<3, 1>>, <<1, 2>> >>
+ScaleTab  == << <<5, 2>>, <<3, 1>>, <<1, 2>> >>   \* the first scale is not 1: a single Gaussian with an explicit scale is distinguishable from the default
 ShiftTab  == << << <<1, 2>>, <<-1, 4>>, <<0, 1>>, <<3, 8>> >>,
                 << <<-1, 8>>, <<1, 1>>, <<1, 4>>, <<-3, 4>> >> >>
 CDispTab  == << << <<1, 2>>, <<1, 4>>, <<-1, 8>> >>,
